@@ -18,6 +18,7 @@ type verifTrace struct {
 	acc    bool
 	mach   Time // machine time when the tracer was called
 	ncalls int  // number of handler calls recorded so far
+	active S    // the machine's active list (in its internal order) when the tracer was called
 }
 
 type verifTracer struct {
@@ -29,7 +30,7 @@ type verifTracer struct {
 
 func (t *verifTracer) add(kind string, tx *Transition) {
 	t.log = append(t.log, verifTrace{kind: kind, mut: tx.Mutation, before: tx.TimeBefore, after: tx.TimeAfter,
-		acc: tx.IsAccepted.Load(), mach: t.m.time(nil), ncalls: len(t.scn.calls)})
+		acc: tx.IsAccepted.Load(), mach: t.m.time(nil), ncalls: len(t.scn.calls), active: t.m.ActiveStates(nil)})
 }
 func (t *verifTracer) TransitionInit(tx *Transition)   { t.add("init", tx) }
 func (t *verifTracer) TransitionStart(tx *Transition)  { t.add("start", tx) }
